@@ -31,6 +31,9 @@ pub struct XferCfg {
     /// A sends this many datagrams and waits for as many echoes from B
     pub dgram_pingpong: usize,
     pub dgram_buffer: usize,
+    /// the application on this side lets go of its Multiplexor handle at some point after all its
+    /// writers have finished (streams live on); every such point is explored (fault budget 1)
+    pub drop_mux_when_writers_done: Option<usize>,
     pub horizon: u64,
 }
 
@@ -70,6 +73,7 @@ pub const W_ACK_SENT: u64 = 2;
 pub const W_RESET: u64 = 4;
 pub const W_ALL_DONE: u64 = 8;
 pub const W_TWO_STREAMS_INTERLEAVED: u64 = 16;
+pub const W_MUX_DROPPED: u64 = 32;
 
 pub fn build(cfg: &XferCfg) -> World {
     let cap = if cfg.cap == 0 { UNBOUNDED_CAP } else { cfg.cap };
@@ -353,7 +357,26 @@ pub fn exec(cfg: &XferCfg, or: &Oracles, render: bool) -> RunOutput {
         if en.is_empty() {
             break;
         }
-        let c = crate::explore::choose_n(en.len(), crate::explore::Cost::Sched);
+        let mut kinds = vec![crate::explore::Cost::Sched; en.len()];
+        let can_drop = cfg.drop_mux_when_writers_done.is_some_and(|side| {
+            w.mux[side].is_some() && {
+                let obs = w.obs.borrow();
+                cfg.streams.iter().all(|s| {
+                    let wdir = u8::from(s.opener != side);
+                    obs.dirs.get(&(s.tag, wdir)).is_some_and(|d| d.writer_done)
+                })
+            }
+        });
+        if can_drop {
+            kinds.push(crate::explore::Cost::Fault);
+        }
+        let c = crate::explore::choose(&kinds);
+        if c >= en.len() {
+            w.drop_mux(cfg.drop_mux_when_writers_done.unwrap_or(0));
+            w.sim.log.push(Step::Extra(0));
+            ck.witnesses |= W_MUX_DROPPED;
+            continue;
+        }
         let step = en[c].clone();
         let item = w.sim.apply(&step);
         ck.after_step(&w, cfg, or, &step, item.as_ref());
